@@ -42,10 +42,12 @@ import (
 const (
 	_binaryChunkSize      = 4096
 	_binaryFinalChunk     = byte('B')  // final chunk
-	_binaryChunk          = byte('b')  // non-final chunk
+	_binaryChunk          = byte('A')  // non-final chunk (x41; x62 is the compact object instance #2)
 	_binaryShortLenTagMin = byte(0x20) // 1-byte length binary min
 	_binaryShortLenTagMax = byte(0x2f) // 1-byte length binary max
 	_binaryShortTagMaxLen = int(_binaryShortLenTagMax - _binaryShortLenTagMin)
+	_binaryMidLenTagMin   = byte(0x34) // 2-byte length binary min
+	_binaryMidLenTagMax   = byte(0x37) // 2-byte length binary max
 )
 
 var (
@@ -155,17 +157,30 @@ func binaryChunkTag(tag byte) bool {
 	return tag == _binaryFinalChunk || tag == _binaryChunk
 }
 
+func binaryMidTag(tag byte) bool {
+	return tag >= _binaryMidLenTagMin && tag <= _binaryMidLenTagMax
+}
+
 func binaryEndTag(tag byte) bool {
-	return tag == _binaryFinalChunk || binaryShortTag(tag)
+	return tag == _binaryFinalChunk || binaryShortTag(tag) || binaryMidTag(tag)
 }
 
 func binaryTag(tag byte) bool {
-	return binaryShortTag(tag) || binaryChunkTag(tag)
+	return binaryShortTag(tag) || binaryMidTag(tag) || binaryChunkTag(tag)
 }
 
 func getBinaryLen(reader ByteRuneReader, tag byte) (int, error) {
 	if binaryShortTag(tag) {
 		return int(tag - _binaryShortLenTagMin), nil
+	}
+
+	if binaryMidTag(tag) {
+		bs := make([]byte, 1)
+		_, err := io.ReadFull(reader, bs)
+		if err != nil {
+			return 0, err
+		}
+		return int(tag-_binaryMidLenTagMin)<<8 + int(bs[0]), nil
 	}
 
 	bs := make([]byte, 2)
